@@ -1944,6 +1944,10 @@ func resolveIndex(v, index reflect.Value, indexAsStr string) (reflect.Value, err
 			// (an interface-keyed map would take it, and panic while hashing it)
 			return reflect.Value{}, fmt.Errorf("can't use %s (%s) as key for map of type %s", indexAsStr, indexVal.Type(), v.Type())
 		}
+		if v.Type().Key().Kind() == reflect.String && indexVal.Kind() != reflect.String {
+			// (an integer "converts" to a string, too: the one made of that code point, which is another key)
+			return reflect.Value{}, fmt.Errorf("can't use %s (%s) as key for map of type %s", indexAsStr, indexVal.Type(), v.Type())
+		}
 		index = indexVal.Convert(v.Type().Key()) // noop in most cases, but not expensive
 		if canNumber(indexVal.Kind()) && canNumber(index.Kind()) && !checkEquality(indexVal, index) {
 			// the number does not fit the key type (300 for a uint8 key, 1.5 for an int key): what it wraps
